@@ -392,10 +392,12 @@ pub assume_specification<T: ?Sized, A: std::alloc::Allocator>[ Rc::<T, A>::stron
 pub fn vx_forbidden() requires false { }
 
 /// the shared observer as seen through the handle's Rc: only what Observer::drop does with it
-#[verifier::external_body]
-pub struct SharedObserver { _p: u8 }
+pub struct SharedObserver { pub state: Cell<ObserverState>, pub _opaque: OnUpdateHandler }
 pub uninterp spec fn shared_state_alive(o: &SharedObserver) -> bool;
+pub assume_specification<T>[ Cell::<T>::set ](c: &Cell<T>, v: T);
 impl SharedObserver {
+    #[verifier::external_body]
+    pub fn disallow_future_use(&self, state: &State) { unimplemented!() }
     #[verifier::external_body]
     pub fn incr_state(&self) -> (r: Option<Rc<State>>) ensures r is Some == shared_state_alive(self) { unimplemented!() }
 }
@@ -408,6 +410,19 @@ impl SharedObserver {
 //@end
 
 impl Observer {
+//@extract fn Observer::disallow_future_use!must
+//@ file: src/public.rs
+//@ impl: impl<T: Value> Observer<T>
+//@ name: disallow_future_use
+//@ as: fn disallow_future_use__always_reaches_the_shared_observer(&self)
+//@ panics: diverge
+//@ rule R8: `self.internal.disallow_future_use(&state);` => `vx_diverge();` x1
+//@ props: C10 C05
+//@ contract:
+//@|     requires shared_state_alive(&*self.internal),
+//@|     ensures false, // [explicit-disallow-always-reaches-the-shared-observer-whatever-its-lifecycle-state]
+//@end
+
 //@extract fn Observer::drop!not_last
 //@ file: src/public.rs
 //@ impl: impl<T: Value> Drop for Observer<T>
